@@ -8,40 +8,98 @@ open Kap.C20.Spec
 
 /-! ### the table -/
 
-def entryOf (g : Path × List Nat) : Path × Nat := (clean g.1, orMask g.2)
+theorem foldl_or_acc (ps : List Nat) (acc : Nat) : ps.foldl (· ||| ·) acc = acc ||| orMask ps := by
+  unfold orMask
+  induction ps generalizing acc with
+  | nil => simp
+  | cons p ps ih =>
+    simp only [List.foldl_cons]
+    rw [ih (acc ||| p), ih (0 ||| p)]
+    simp [Nat.or_assoc]
 
-theorem foldl_cons_entries (grants : List (Path × List Nat)) (acc : List (Path × Nat)) :
-    grants.foldl (fun m g => (clean g.1, orMask g.2) :: m) acc = (grants.map entryOf).reverse ++ acc := by
+theorem orMask_append (a b : List Nat) : orMask (a ++ b) = orMask a ||| orMask b := by
+  unfold orMask
+  rw [List.foldl_append, foldl_or_acc b]
+  rfl
+
+theorem lookup_mapOr (m : List (Path × Nat)) (k k' : Path) (v : Nat) :
+    lookup (mapOr m k v) k' = if k = k' then some ((lookup m k').getD 0 ||| v) else lookup m k' := by
+  induction m with
+  | nil =>
+    by_cases h : k = k'
+    · simp [mapOr, lookup, h]
+    · simp [mapOr, lookup, h]
+  | cons e rest ih =>
+    unfold mapOr
+    by_cases he : e.1 = k
+    · rw [if_pos he]
+      by_cases h : k = k'
+      · have : e.1 = k' := he.trans h
+        simp [lookup, this, h]
+      · have : ¬ e.1 = k' := fun x => h (he.symm.trans x)
+        simp [lookup, this, h]
+    · rw [if_neg he]
+      by_cases hk : e.1 = k'
+      · have : ¬ k = k' := fun x => he (hk.trans x.symm)
+        simp [lookup, hk, this]
+      · have e1 : lookup (e :: mapOr rest k v) k' = lookup (mapOr rest k v) k' := by simp [lookup, hk]
+        have e2 : lookup (e :: rest) k' = lookup rest k' := by simp [lookup, hk]
+        rw [e1, e2, ih]
+
+/-- One step of the `range` loop of `NewUser`, seen from key `k`. -/
+def accStep (k : Path) (acc : Option Nat) (g : Path × List Nat) : Option Nat :=
+  if clean g.1 = k then some (acc.getD 0 ||| orMask g.2) else acc
+
+theorem lookup_foldl (grants : List (Path × List Nat)) (m : List (Path × Nat)) (k : Path) :
+    lookup (grants.foldl (fun m g => mapOr m (clean g.1) (orMask g.2)) m) k = grants.foldl (accStep k) (lookup m k) := by
+  induction grants generalizing m with
+  | nil => simp
+  | cons g gs ih =>
+    simp only [List.foldl_cons]
+    rw [ih, lookup_mapOr]
+    rfl
+
+theorem accStep_foldl (grants : List (Path × List Nat)) (k : Path) (acc : Option Nat) :
+    grants.foldl (accStep k) acc =
+      if (grants.filter (fun g => clean g.1 = k)).isEmpty then acc
+      else some (acc.getD 0 ||| orMask ((grants.filter (fun g => clean g.1 = k)).flatMap (fun g => g.2))) := by
   induction grants generalizing acc with
   | nil => simp
-  | cons g gs ih => simp [ih, entryOf]
-
-theorem newUser_privs (admin : Bool) (grants : List (Path × List Nat)) :
-    (newUser admin grants).privs = (grants.reverse.map entryOf) := by
-  unfold newUser
-  simp only [foldl_cons_entries, List.append_nil, List.map_reverse]
-
-theorem lookup_entries (l : List (Path × List Nat)) (a : Node) (ha : NormalSegs a) :
-    lookup (l.map entryOf) ('/' :: join a) =
-      (match l.find? (fun g => nodeOf g.1 = some a) with | some g => some (orMask g.2) | none => none) := by
-  induction l with
-  | nil => simp [lookup]
   | cons g gs ih =>
-    unfold lookup at ih ⊢
-    simp only [List.map_cons, List.find?_cons]
-    by_cases h : nodeOf g.1 = some a
-    · have : clean g.1 = '/' :: join a := (clean_eq_canonical_iff g.1 a ha).mpr h
-      simp [entryOf, this, h]
-    · have : clean g.1 ≠ '/' :: join a := fun e => h ((clean_eq_canonical_iff g.1 a ha).mp e)
-      simp only [entryOf, this, h, decide_false]
-      exact ih
+    simp only [List.foldl_cons]
+    rw [ih]
+    unfold accStep
+    by_cases h : clean g.1 = k
+    · simp only [h, if_true, List.filter_cons, decide_true, List.isEmpty_cons, Bool.false_eq_true, if_false,
+        List.flatMap_cons, Option.getD_some]
+      rw [orMask_append]
+      split
+      · rename_i he
+        have : List.filter (fun g => decide (clean g.1 = k)) gs = [] := by simpa using he
+        simp [this, orMask]
+      · simp [Nat.or_assoc]
+    · rw [List.filter_cons_of_neg (by simpa using h)]
+      simp [h]
 
 /-- Looking a canonical path up in the user's table = the spec's `grantAt`, OR-ed into a mask. -/
 theorem lookup_newUser (admin : Bool) (grants : List (Path × List Nat)) (a : Node) (ha : NormalSegs a) :
     lookup (newUser admin grants).privs ('/' :: join a) = (grantAt grants a).map orMask := by
-  rw [newUser_privs, lookup_entries _ a ha]
+  unfold newUser
+  simp only
+  rw [lookup_foldl, accStep_foldl]
+  have hf : grants.filter (fun g => decide (clean g.1 = '/' :: join a)) =
+      grants.filter (fun g => decide (nodeOf g.1 = some a)) := by
+    apply List.filter_congr
+    intro g _
+    have := clean_eq_canonical_iff g.1 a ha
+    by_cases h : nodeOf g.1 = some a
+    · simp [h, this.mpr h]
+    · have h' : ¬ clean g.1 = '/' :: join a := fun e => h (this.mp e)
+      simp [h, h']
+  rw [hf]
   unfold grantAt
-  cases grants.reverse.find? (fun g => nodeOf g.1 = some a) <;> simp
+  simp only [lookup, List.find?_nil, Option.getD_none, Nat.zero_or]
+  split <;> simp
 
 theorem findSome_nearest (admin : Bool) (grants : List (Path × List Nat)) (l : List Node) (hl : ∀ a ∈ l, NormalSegs a) :
     l.findSome? (fun a => lookup (newUser admin grants).privs ('/' :: join a)) =
@@ -140,67 +198,38 @@ theorem valid_and (p w : Nat) (hp : validPriv p = true) (hw : validPriv w = true
   rcases validPriv_cases p hp with rfl | rfl | rfl | rfl | rfl <;>
   rcases validPriv_cases w hw with rfl | rfl | rfl | rfl | rfl <;> decide
 
-theorem orMask_all (ps : List Nat) (hne : ps ≠ []) (h : ∀ p ∈ ps, p = 16) : orMask ps = 16 := by
-  unfold orMask
-  cases ps with
-  | nil => exact absurd rfl hne
-  | cons p ps =>
-    have hp : p = 16 := h p (by simp)
-    subst hp
-    simp only [List.foldl_cons]
-    have : ∀ (l : List Nat), (∀ q ∈ l, q = 16) → l.foldl (· ||| ·) 16 = 16 := by
-      intro l
-      induction l with
-      | nil => simp
-      | cons q qs ih =>
-        intro hq
-        have : q = 16 := hq q (by simp)
-        subst this
-        simpa using ih (fun x hx => hq x (by simp [hx]))
-    exact this ps (fun q hq => h q (by simp [hq]))
-
 theorem allPriv_eq : allPriv = 16 := by decide
 theorem noPriv_eq : noPriv = 1 := by decide
 
-/-- Upper bound: the mask test succeeds only if the wanted privilege, or `all`, is in the list. -/
-theorem authorized_listed (ps : List Nat) (want : Nat) (hps : ps.all validPriv = true) (hw : validPriv want = true)
-    (h : authorized (orMask ps) want = true) : listed ps want = true := by
-  unfold authorized at h
-  unfold listed
-  simp only [Bool.or_eq_true, bne_iff_ne, ne_eq, beq_iff_eq] at h
-  simp only [Bool.or_eq_true, List.contains_iff_mem]
+/-- **The mask test is the statement's "listed"**: on privilege lists and wanted privileges from the five
+declared ones, `p&want != 0 || p&all != 0` holds iff the list contains the wanted privilege or `all`. -/
+theorem authorized_eq_listed (ps : List Nat) (want : Nat) (hps : ps.all validPriv = true) (hw : validPriv want = true) :
+    authorized (orMask ps) want = listed ps want := by
   have hv : ∀ p ∈ ps, validPriv p = true := by simpa using hps
-  rcases h with h | h
-  · left
-    obtain ⟨p, hp, hne⟩ := (orMask_and_ne ps want).mp h
-    have := (valid_and p want (hv p hp) hw).mp hne
-    subst this; exact hp
-  · right
-    rw [allPriv_eq] at h
-    have hne : orMask ps &&& 16 ≠ 0 := by rw [h]; decide
-    obtain ⟨p, hp, hne⟩ := (orMask_and_ne ps 16).mp hne
-    have := (valid_and p 16 (hv p hp) (by decide)).mp hne
-    subst this; exact hp
-
-/-- Lower bound: a listed privilege, or a list that is just `all`, passes the mask test. -/
-theorem surely_authorized (ps : List Nat) (want : Nat) (hw : validPriv want = true)
-    (h : surelyListed ps want = true) : authorized (orMask ps) want = true := by
-  unfold surelyListed at h
-  unfold authorized
-  simp only [Bool.or_eq_true, List.contains_iff_mem, Bool.and_eq_true, Bool.not_eq_true', List.all_eq_true,
-    beq_iff_eq] at h
-  simp only [Bool.or_eq_true, bne_iff_ne, ne_eq, beq_iff_eq]
-  rcases h with h | ⟨hne, hall⟩
-  · left
-    rw [orMask_and]
-    intro hz
-    have := hz want h
-    have hww : want &&& want = want := Nat.and_self want
-    rw [hww] at this
-    subst this
-    exact absurd hw (by decide)
-  · right
+  have h1 : (orMask ps &&& want ≠ 0) ↔ want ∈ ps := by
+    rw [orMask_and_ne]
+    constructor
+    · rintro ⟨p, hp, hne⟩
+      have := (valid_and p want (hv p hp) hw).mp hne
+      subst this; exact hp
+    · intro h
+      exact ⟨want, h, (valid_and want want hw hw).mpr rfl⟩
+  have h2 : (orMask ps &&& 16 ≠ 0) ↔ 16 ∈ ps := by
+    rw [orMask_and_ne]
+    constructor
+    · rintro ⟨p, hp, hne⟩
+      have := (valid_and p 16 (hv p hp) (by decide)).mp hne
+      subst this; exact hp
+    · intro h
+      exact ⟨16, h, by decide⟩
+  have ha : authorized (orMask ps) want = true ↔ (want ∈ ps ∨ 16 ∈ ps) := by
+    unfold authorized
     rw [allPriv_eq]
-    exact orMask_all ps (by intro e; subst e; simp at hne) (fun p hp => by simpa [pAll] using hall p hp)
+    simp only [Bool.or_eq_true, bne_iff_ne]
+    exact or_congr h1 h2
+  have hl : listed ps want = true ↔ (want ∈ ps ∨ 16 ∈ ps) := by
+    unfold listed
+    simp [pAll]
+  rw [Bool.eq_iff_iff, ha, hl]
 
 end Kap.C20
